@@ -10,14 +10,15 @@ CHECKS = {
                   "histories, N=4) and of the implementation-shaped model of GreedySelector.fit; plus TLC trace validation of hundreds "
                   "(quick) / thousands (thorough) of real selector lifecycles (9 classes, every n_to_select form, thresholds, "
                   "initialisations, warm-start chains, rank-deficient and duplicated data) against the same reference operators, "
-                  "every step and every derived view checked.", ref="6/C01",
+                  "every step and every derived view checked; exact families also on scaled lattices (the code sees X*c, c from 1e-5 to 1e3).", ref="6/C01, 11.2",
              tech="TLA+ reference + implementation-shaped spec model-checked with TLC; TLC trace validation of recorded selector lifecycles"),
 }
 CHECKS["C02"] = dict(text="TLC checks on all placements of 4-5 points of a small 2-D lattice that the incremental FPS table equals the brute-force "
     "table, selected items have distance 0 and select-distances never increase; TLC then validates recorded fits of the real FPS / PCov-FPS "
     "(sample) / VoronoiFPS classes in both directions (integer lattices with many exact ties, duplicates, clusters; int/list/random "
     "initialisation; warm starts) against reference FPS: the score table at every decision, every choice (tie-aware), get_distance and "
-    "get_select_distance are compared exactly with distances TLC recomputes by brute force from the coordinates.", ref="6/C02",
+    "get_select_distance are compared exactly with distances TLC recomputes by brute force from the coordinates (also on scaled lattices, 1e-7 .. 1e3); "
+    "feature-direction PCov-FPS is checked in fixed point against the PCovR-modified covariance the specification builds from a verified thin-SVD witness.", ref="6/C02, 11.2",
     tech="TLA+ reference FPS model-checked with TLC; exact-integer TLC trace validation of recorded FPS fits")
 CHECKS["C06"] = dict(text="Exhaustive TLC check that the implementation-shaped VoronoiFPS model (cells, quarter-distance pruning, full/sparse branch, "
     "every switching point incl. every calibration outcome) refines reference FPS on all placements of 4 (quick) / 5 (thorough) lattice points, with "
@@ -28,7 +29,8 @@ CHECKS["C06"] = dict(text="Exhaustive TLC check that the implementation-shaped V
 CHECKS["C08"] = dict(text="TLC model-checks the implementation-shaped selector model over all <=3-fit cold/warm histories (chain result = cold fit); TLC "
     "enumerates every increasing warm-start schedule up to N=6 (63) and each is replayed on 14 selector variants x data sets; TLC compares the "
     "state after every fit of every chain (selection, stored data, score/distance tables, support) with the cold fit of the same request, "
-    "tie-aware from the first tied decision; also prefix independence, FPS restart from a selected prefix, warm start on an unfitted selector.", ref="6/C08",
+    "tie-aware from the first tied decision; also prefix independence, FPS restart from a selected prefix, warm start on an unfitted selector; schedules "
+    "up to N=12 are sampled with tlc -simulate and replayed the same way.", ref="6/C08, 11.2",
     tech="TLC-enumerated call histories replayed in the real selectors; TLC compares chain states with cold-fit states (history registers)")
 CHECKS["C15"] = dict(text="TLC verifies the metric laws (symmetry, zero exactly on images, invariance under integer image shifts, <= free-space distance, "
     "<= half the cell diagonal, triangle inequality in squared form) exhaustively for the reference minimum-image function on all triples of lattice "
@@ -122,8 +124,10 @@ CHECKS["C17"] = dict(text="Recorded SparseKDE fits on integer lattices (1-3 dime
     "arbitrary grids; fpoints / fspread; free and periodic) are validated by TLC: every descriptor is assigned to a nearest grid point under the exact "
     "(minimum-image) distance, grid weights are the exact sums of the assigned weights and total one, bandwidths are finite, symmetric and positive "
     "definite (Sylvester minors in fixed point), score = sum of score_samples, and - when the specification finds the assignment tie-free - "
-    "log-densities are unchanged by translation, consistent permutation and whole-cell shifts of queries, descriptors and grid points. The closed form "
-    "of the mixture itself is not decided here (DESIGN.md section 8).", ref="6/C17",
+    "log-densities are unchanged by translation, consistent permutation and whole-cell shifts of queries, descriptors and grid points. Part 2 checks the "
+    "documented mixture itself: sum over all terms of exp(term - score) = 1 with a table-driven exp (ExpTab, self-checked by TLC), grid-level or "
+    "descriptor-level terms chosen by the specification's own Mahalanobis distance against the cut-off, inverse bandwidths / log-determinants / "
+    "log-weights as verified witnesses (about 3 %).", ref="6/C17, 11.3",
     tech="TLC validates recorded fits against the exact Voronoi-assignment / weight laws and symmetry registers of the TLA+ specification")
 CHECKS["C09"] = dict(text="TLC model-checks the abstract lifecycle (caller memory cells, hyper-parameters, learned state) over all histories of <= 3 fits and "
     "shows that each mechanism found in the code (attribute replaced only when targets are given, hyper-parameter written back by fit, in-place "
